@@ -554,6 +554,12 @@ func (db *MultiBucketBackend) PutObject(
 	}
 	closed = true
 
+	if conflict, err := keyConflict(db.bucketFs, bucketName, objectName); err != nil {
+		return result, err
+	} else if conflict {
+		return result, conflictingObjectName(objectName)
+	}
+
 	if objectDir != "." {
 		if err := db.bucketFs.MkdirAll(objectDir, db.dirMode); err != nil {
 			return result, err
@@ -609,6 +615,14 @@ func (db *MultiBucketBackend) deleteObjectLocked(bucketName, objectName string) 
 	}
 
 	fullPath := path.Join(bucketName, objectName)
+
+	// A directory is not an object (it holds the keys below it): there is
+	// no such key to delete.
+	if isDir, err := dirExists(db.bucketFs, filepath.FromSlash(fullPath)); err != nil {
+		return err
+	} else if isDir {
+		return nil
+	}
 
 	// S3 does not report an error when attemping to delete a key that does not exist, so
 	// we need to skip IsNotExist errors.
